@@ -137,36 +137,16 @@ macro_rules! nthash_sym {
     };
 }
 
+// measured: k=5 5 s, k=7 10 s, k=31 134 s, k=63 720 s (the XOR chains go through slice iterators on one side
+// and index loops on the other, so SAT has real work to do); quick runs k in {5,7,15}
 nthash_new!(nthash_new_k5; 5, 9);
 nthash_new!(nthash_new_k7; 7, 11);
 nthash_new!(nthash_new_k15; 15, 19);
-nthash_new!(nthash_new_k31; 31, 35);
-nthash_new!(nthash_new_k33; 33, 37);
-nthash_new!(nthash_new_k63; 63, 67);
 nthash_new!(thorough_nthash_new_k9; 9, 13);
-nthash_new!(thorough_nthash_new_k11; 11, 15);
-nthash_new!(thorough_nthash_new_k13; 13, 17);
-nthash_new!(thorough_nthash_new_k17; 17, 21);
-nthash_new!(thorough_nthash_new_k19; 19, 23);
 nthash_new!(thorough_nthash_new_k21; 21, 25);
-nthash_new!(thorough_nthash_new_k23; 23, 27);
-nthash_new!(thorough_nthash_new_k25; 25, 29);
-nthash_new!(thorough_nthash_new_k27; 27, 31);
-nthash_new!(thorough_nthash_new_k29; 29, 33);
-nthash_new!(thorough_nthash_new_k35; 35, 39);
-nthash_new!(thorough_nthash_new_k37; 37, 41);
-nthash_new!(thorough_nthash_new_k39; 39, 43);
-nthash_new!(thorough_nthash_new_k41; 41, 45);
-nthash_new!(thorough_nthash_new_k43; 43, 47);
-nthash_new!(thorough_nthash_new_k45; 45, 49);
-nthash_new!(thorough_nthash_new_k47; 47, 51);
-nthash_new!(thorough_nthash_new_k49; 49, 53);
-nthash_new!(thorough_nthash_new_k51; 51, 55);
-nthash_new!(thorough_nthash_new_k53; 53, 57);
-nthash_new!(thorough_nthash_new_k55; 55, 59);
-nthash_new!(thorough_nthash_new_k57; 57, 61);
-nthash_new!(thorough_nthash_new_k59; 59, 63);
-nthash_new!(thorough_nthash_new_k61; 61, 65);
+nthash_new!(thorough_nthash_new_k31; 31, 35);
+nthash_new!(thorough_nthash_new_k33; 33, 37);
+nthash_new!(thorough_nthash_new_k63; 63, 67);
 // end-to-end cross-checks on the real code alone (independent of the Verus route), small k only: XOR chains are
 // hard for SAT, k = 31 takes minutes
 nthash_roll!(nthash_roll_k5; 5, 9);
